@@ -261,6 +261,22 @@ class BoundMethod:
         return hash((id(self.obj), id(self.fi)))
 
 
+def _derives_from_asyncio_queue(mro):
+    """is some base of these classes asyncio's Queue - however it is named at the class statement (`asyncio.Queue`,
+    `asyncio.queues.Queue`, `queues.Queue` after `from asyncio import queues`, `Queue` after `from asyncio import Queue`)"""
+    for k in mro:
+        for b in k.bases:
+            parts = b.split(".")
+            if parts[-1] not in ("Queue", "LifoQueue", "PriorityQueue"):
+                continue
+            if "asyncio" in parts:
+                return True
+            imp = getattr(k.mod, "imports", {}).get(parts[0])
+            if imp is not None and str(imp[1] or "").split(".")[0] == "asyncio":
+                return True
+    return False
+
+
 def _asyncio_queue_member(obj, attr):
     """what a class derived from asyncio.Queue inherits from it (the standard library is not analysed, its documented
     behaviour is modelled): an unbounded-or-bounded FIFO in `_queue`, maxsize, qsize / empty / full, put_nowait / get_nowait
@@ -1071,12 +1087,19 @@ class Interp:
                 if attr == "__init__":
                     return Native(lambda a, k, o=base.obj: dict.__init__(o, *a, **k), "dict.__init__")
                 return PyMethod(base.obj, attr)
-            if any(b.split(".")[-1] == "Queue" and "asyncio" in b for k in mro for b in k.bases):
+            if _derives_from_asyncio_queue(mro):
                 std = _asyncio_queue_member(base.obj, attr)
                 if std is not None:
                     return std
             if attr == "__init__":
                 return Builtin("noop")
+            lib_bases = {b.split(".")[-1] for k in mro for b in k.bases}
+            if attr in ("__aexit__", "__aenter__") and lib_bases & {"Lock", "Semaphore", "BoundedSemaphore", "Condition"}:
+                return Native(lambda a, k: None, f"asyncio-lock.{attr}")      # asyncio's locks never suppress what leaves the block
+            if attr in ("__exit__", "__aexit__") and lib_bases & {"AbstractContextManager", "AbstractAsyncContextManager"}:
+                return Native(lambda a, k: None, f"contextlib.{attr}")
+            if attr in ("__enter__", "__aenter__") and lib_bases & {"AbstractContextManager", "AbstractAsyncContextManager"}:
+                return Native(lambda a, k, o=base.obj: o, f"contextlib.{attr}")
             raise Undecided(f"super().{attr} not found")
         if isinstance(base, ClassRef):
             if _is_enum(base.cls) and attr in base.cls.consts and self._is_enum_member_name(base.cls, attr):
@@ -1294,8 +1317,8 @@ class Interp:
         if key in cache:
             return cache[key]
         v = self.eval(k.consts[attr], {"__class__": k, "__mod__": k.mod, "__classbody__": k})
-        if isinstance(v, (dict, list, set, USet)):
-            cache[key] = v
+        if isinstance(v, (dict, list, set, USet, _collections.deque)) or hasattr(v, "__next__"):
+            cache[key] = v     # ... and an iterator bound in the class body is ONE object shared by every instance
         return v
 
     def e_Call(self, e, env):
@@ -1930,12 +1953,22 @@ def _dir_of(interp, v):
 
 
 BUILTINS = {
-    "int", "float", "len", "isinstance", "max", "min", "str", "bool", "range", "list",
+    "int", "float", "len", "isinstance", "issubclass", "BaseException", "max", "min", "str", "bool", "range", "list",
     "tuple", "dict", "bytes", "abs", "enumerate", "zip", "sorted", "hex", "round", "set",
     "Exception", "ValueError", "RuntimeError", "OverflowError", "getattr", "setattr", "hasattr", "callable", "dir",
     "any", "all", "next", "iter", "frozenset", "sum", "reversed", "map", "filter", "print", "divmod", "bytearray", "repr", "ord", "chr", "memoryview", "type", "hash", "id",
     "TypeError", "KeyError", "IndexError", "AttributeError", "NotImplementedError", "StopIteration", "property", "open",
 }
+
+
+def _py_exception(b):
+    """the library exception class a Builtin value stands for (BaseException, KeyError, asyncio.CancelledError ...)"""
+    if not isinstance(b, Builtin):
+        return None
+    import builtins as _b, asyncio as _a
+    nm = b.name
+    c = getattr(_a, nm[8:], None) if nm.startswith("asyncio.") else getattr(_b, nm, None)
+    return c if isinstance(c, type) and issubclass(c, BaseException) else None
 
 
 class Builtin:
@@ -1956,6 +1989,15 @@ class Builtin:
             return PropertyObj(args[0] if args else kwargs.get("fget"), args[1] if len(args) > 1 else kwargs.get("fset"))
         if n == "logging.getLogger":
             return LoggerStub(interp)
+        if n == "issubclass":
+            c_, t = args
+            ts = t if isinstance(t, tuple) else (t,)
+            if isinstance(c_, ClassRef) and all(isinstance(o_, ClassRef) for o_ in ts):
+                return any(k is o_.cls for o_ in ts for k in interp.repo.mro(c_.cls))
+            pys = [_py_exception(x) for x in (c_,) + tuple(ts)]
+            if all(x is not None for x in pys):
+                return issubclass(pys[0], tuple(pys[1:]))
+            raise Undecided("issubclass over classes from outside the package")
         if n == "isinstance":
             v, t = args
             ts = t if isinstance(t, tuple) else (t,)
